@@ -41,7 +41,9 @@ FEATS = ('hier', 'abstract', 'extra', 'enum', 'strlike', 'any', 'untyped',
          'abstract_containers')
 
 CYCLES = ['&x [*x]', '&x {k: *x}', '&x {a: *x}', '&x [[*x]]', '&x [1, {a: *x}]',
-          '&x {? *x : 1}', '&x {a: 1, items: {p: *x}}', '&x {x: [*x], a: 1}']
+          '&x {? *x : 1}', '&x {a: 1, items: {p: *x}}', '&x {x: [*x], a: 1}',
+          '&x [1, *x]', '&x {x: 1, self: *x}', '[&y {k: [*y]}]', '{a: &z [2, {b: *z}], c: 3}',
+          '&x [&y [*x], *y]']
 
 
 def expand(t, env=None):
@@ -108,6 +110,11 @@ def cases(draw):
             text = T.render_flow(T.set_at(t, draw(st.sampled_from(subs)),
                                           T.S('ZZQQ'))).replace('ZZQQ', cyc)
         else:
+            text = cyc
+        if draw(st.booleans()):
+            # where any plain data is acceptable a truncated copy would load
+            spec = dict(spec, doc_type=draw(st.sampled_from(
+                ['any', 'any', ['list', 'any'], ['dict', 'str', 'any']])))
             text = cyc
         return {'model': spec, 'cyclic': text}
     t, origin = draw(gen.doc_for(spec, hard=False, mutations=c >= 6))
